@@ -49,6 +49,20 @@ CLAIMED["C01"] = dict(
     note=TRUST + "; event times mapped to spec ticks by their order relative to step boundaries (integer arithmetic on configured datetimes); duration events end on a boundary or beyond the span",
     engine="resonaate-system")
 
+CLAIMED["C09"] = dict(
+    text=("TLC checks the database clauses of Resonaate.tla exhaustively (DbComplete, DbNoDup, DbRefs, RowsExact as invariants; "
+          "CommitAtomic as an action property) for equal / multiple / non-multiple output intervals, agent sets changing through "
+          "events, estimation on/off and a commit that may fail at any output step; a partial-commit spec mutant is refuted. Real "
+          "scenarios on file-backed SQLite databases (physics/output step pairs, 1-3 consecutive propagateTo calls, addition/removal "
+          "events, estimation on/off) are traced; after every save ALL tables are audited with plain SQL and the bags of row keys must "
+          "equal the spec's database, epochs must be unique/increasing with timestamps matching an independent Julian-date conversion, "
+          "no row may reference a missing epoch or agent, stored states/covariances must be bit-equal to the held ones. Every crash "
+          "point inside a save (each bulk-save and commit operation) is enumerated with an injected failure and the audit afterwards "
+          "must equal the pre-step database."),
+    ref="5 C09", technique="TLA+ system spec Resonaate.tla + TLC exhaustive; trace validation with full SQL audit; crash-point enumeration inside saveDatabaseOutput",
+    note=TRUST + "; sqlite3/SQLAlchemy transactions; epoch rows are the pre-populated calendar of the configured span",
+    engine="resonaate-system", category="model_checking")
+
 NOT_APPLICABLE = {
     "C13": ("an explicit TLA+ specification cannot evaluate a degree-20 spherical-harmonic gradient or analytic ephemerides; "
             "the property IS equality with an independent numerical reference, which would be differential testing, a "
